@@ -29,8 +29,12 @@ def run(ctx):
     extra = []
     for c in cases:
         extra += fs.fault_isolation_failures(c)
+    # xarray datasets with a variable on another dimension: the stream supplies no time / depth for it
+    orph = fs.gen_orphan_cases(tier, rng)
+    for c in orph:
+        extra += fs.fault_isolation_failures(c)
     r1["failures"] += extra
-    r1["evaluations"] += 2 * len(cases)
+    r1["evaluations"] += 2 * len(cases) + 2 * len(orph)
     nfault = sum(1 for c in cases for cx in c["cfg"] for e in cx["entries"] if e["kind"] != "call" or e["fault"] or e["stream"] == "nope")
     out = adapters.merge(
         [r1],
@@ -41,4 +45,5 @@ def run(ctx):
              "entries. non-trivial = n >= 2 rows",
     )
     out["distribution"]["faulty_entries"] = nfault
+    out["distribution"]["datasets_with_a_variable_on_another_dimension"] = len(orph)
     return out
